@@ -484,7 +484,7 @@ pub fn rc_big_scenario(cs: u64, us: u64, m: u16, crc: u32, name: &str) -> RcBig 
                 out.fails.push(format!("the copy reads back as method {dm}, crc {:08x}, sizes {} / {}, mode {:?}; the source has method {m}, crc {crc:08x}, sizes {cs} / {us}, mode 100644", f.crc32(), f.compressed_size(), f.size(), f.unix_mode()));
             }
             if f.data_start() != data_start { out.fails.push(format!("data_start {} != end of the local header {data_start}", f.data_start())); }
-            match std::io::copy(&mut f, &mut ZeroCheck(true)) {
+            match std::io::copy(&mut f, &mut ZeroCheck) {
                 Ok(n) if n == cs => {}
                 Ok(n) => out.fails.push(format!("the copy's raw data are {n} bytes, the source has {cs}")),
                 Err(e) => out.fails.push(format!("reading the copy's raw data: {}", ioerr_class(&e))),
@@ -510,7 +510,7 @@ pub fn rc_big_scenario(cs: u64, us: u64, m: u16, crc: u32, name: &str) -> RcBig 
 }
 
 /// a writer that insists on zero bytes (the source's data are a hole)
-struct ZeroCheck(bool);
+struct ZeroCheck;
 impl Write for ZeroCheck {
     fn write(&mut self, buf: &[u8]) -> std::io::Result<usize> {
         if buf.iter().any(|b| *b != 0) { return Err(std::io::Error::new(std::io::ErrorKind::InvalidData, "non-zero byte in the copied data")); }
